@@ -18,6 +18,7 @@ static const char * rname[NREADER] = {"Int32", "UInt64", "Double", "Bool", "Choi
 typedef struct { int reader, mandatory; } rd_t;
 static rd_t sig[4];
 static int nsig, h_ret_err, h_stop;
+static int h_own = 0;      /* the handler reports an error of its own before it returns: 1 with SCPI_ErrorPush, 2 with SCPI_ErrorPushEx (text) */
 
 static const scpi_choice_def_t choices[] = { {"OFF", 0}, {"ON", 1}, {"MAXimum", 2}, SCPI_CHOICE_LIST_END };
 
@@ -56,6 +57,8 @@ static scpi_result_t handler(scpi_t * c) {
         if (!r) { failed = 1; if (h_stop) break; }
     }
     (void) failed;
+    if (h_own == 1) SCPI_ErrorPush(c, -222);
+    else if (h_own == 2) SCPI_ErrorPushEx(c, -223, (char *) "own", 3);
     tr_printf("X%d;", h_ret_err);
     return h_ret_err ? SCPI_RES_ERR : SCPI_RES_OK;
 }
@@ -322,6 +325,7 @@ static void run_case(const char * body, int bl, int delivery) {
             ex(";");
             if (!ok && h_stop) stopped = 1;
         }
+        if (h_own) { ex("E-22%d;", 1 + h_own); m_err = 1; }      /* an error of the handler's own: neither -200 nor -108 on top of it */
         ex("X%d;", h_ret_err);
         if (h_ret_err && !m_err) { ex("E-200;"); m_err = 1; }
         if (cur < nitems && !m_err) { ex("E-108;"); m_err = 1; }
@@ -397,6 +401,7 @@ int main(int argc, char ** argv) {
                 h_ret_err = flags & 1; h_stop = (flags >> 1) & 1;
                 if (n == 0 && h_stop) continue;
                 run_lists(n >= 3 ? 2 : 3);
+                if (n <= 1) { for (h_own = 1; h_own <= 2; h_own++) run_lists(2); h_own = 0; }
             }
             for (i = n - 1; i >= 0; i--) { if (++s[i] < NREADER * 2) break; s[i] = 0; }
             if (i < 0) break;
